@@ -121,6 +121,7 @@ class TypeState:
         self.violations = {}
         self.status_writes = {}
         self.ops = []          # (fn short, op, side, where, pre-states)
+        self.calls = []        # (caller Fn, callee Fn, {callee entity key: set of sides}, where)
         self.contexts = 0
         self.stack = []
 
@@ -554,6 +555,7 @@ class TypeState:
                     touched.append((k, ck))
         if not entry and not self.touches_entities(tgt):
             return
+        self.calls.append((q.fn, tgt, {render(ck): frozenset(t[2] for t in v) for ck, v in entry.items()}, where))
         res = self.analyse(tgt, entry, mode)
         ret_expr = res["ret"]
         call_res = c.result
